@@ -167,7 +167,7 @@ func arrayExecInsert(ar *Array, values []r.Element) (r.Element, error) {
 		return nil, err
 	}
 	v := values[1].(*Number)
-	ar.value = insertArrayValue(ar.value, int(v.value), values[0])
+	ar.value = insertArrayValue(ar.value, int(v.value), detachFrom(ar, values[0]))
 
 	return ar, nil
 }
@@ -176,7 +176,7 @@ func arrayExecPrepend(ar *Array, values []r.Element) (r.Element, error) {
 	if err := ValidateExactParams(values, "any"); err != nil {
 		return nil, err
 	}
-	ar.value = insertArrayValue(ar.value, 0, values[0])
+	ar.value = insertArrayValue(ar.value, 0, detachFrom(ar, values[0]))
 	return ar, nil
 }
 
@@ -184,7 +184,7 @@ func arrayExecAppend(ar *Array, values []r.Element) (r.Element, error) {
 	if err := ValidateExactParams(values, "any"); err != nil {
 		return nil, err
 	}
-	ar.value = insertArrayValue(ar.value, len(ar.value), values[0])
+	ar.value = insertArrayValue(ar.value, len(ar.value), detachFrom(ar, values[0]))
 	return ar, nil
 }
 
@@ -229,7 +229,9 @@ func arrayExecMerge(ar *Array, values []r.Element) (r.Element, error) {
 	result = append(result, ar.value...)
 	for _, v := range values {
 		varr := v.(*Array).value
-		result = append(result, varr...)
+		for _, item := range varr {
+			result = append(result, detachFrom(ar, item))
+		}
 	}
 	// update new array
 	ar.value = result
